@@ -109,6 +109,18 @@ type PCtx struct {
 	rel     chan struct{}
 	seen    []BcastMsg // handler invocations in order
 	inMsg   *BcastMsg
+	// recording mode: ctx.Err() reads are logged atomically with the read, and
+	// Cancel is serialized with them
+	onErr    func(live bool)
+	errCalls int
+}
+
+// Cancel cancels the context; a concurrent logged Err() read is either
+// entirely before or entirely after the cancellation takes effect.
+func (c *PCtx) Cancel() {
+	c.mu.Lock()
+	c.cancel()
+	c.mu.Unlock()
 }
 
 func newPCtx(name string, forced bool) *PCtx {
@@ -152,7 +164,14 @@ func (c *PCtx) Done() <-chan struct{} {
 // Err is called by the processing goroutine after every dequeue.
 func (c *PCtx) Err() error {
 	if !c.isForced() {
-		return c.Context.Err()
+		c.mu.Lock()
+		e := c.Context.Err()
+		c.errCalls++
+		if c.onErr != nil {
+			c.onErr(e == nil)
+		}
+		c.mu.Unlock()
+		return e
 	}
 	g := gid()
 	c.mu.Lock()
@@ -569,7 +588,38 @@ func mrec(s string, n uint64) map[string]interface{} {
 	return map[string]interface{}{"s": s, "n": n}
 }
 
+// calibrateChk finds out whether the implementation asks ctx.Err() exactly
+// once for every message it takes from a handler's queue. Only then are the
+// reads recorded as Chk events (the trace specification then takes Dequeue and
+// CheckCtx at that event instead of guessing where they happened).
+func calibrateChk(t *testing.T, tg BcastTarget) bool {
+	rig := tg.NewRig(t, nil, []string{"s3"})
+	defer rig.Close()
+	p := newPCtx("h1", false)
+	defer p.cancel()
+	got := make(chan int, 4)
+	rig.Register(p, func(m BcastMsg) {
+		p.mu.Lock()
+		n := p.errCalls
+		p.mu.Unlock()
+		got <- n
+	})
+	for i := 1; i <= 3; i++ {
+		rig.SimSend("s3", fmt.Sprintf("c%d", i))
+		select {
+		case n := <-got:
+			if n != i {
+				return false
+			}
+		case <-time.After(30 * time.Second):
+			return false
+		}
+	}
+	return true
+}
+
 type bcastRun struct {
+	chk  bool
 	t    *testing.T
 	tg   BcastTarget
 	rig  BcastRig
@@ -582,15 +632,38 @@ type bcastRun struct {
 	block func(h string, m BcastMsg)
 }
 
+var chkCal = map[string]bool{}
+var chkCalMu sync.Mutex
+
 func newBcastRun(t *testing.T, tg BcastTarget, real, sim []string) *bcastRun {
-	return &bcastRun{t: t, tg: tg, rig: tg.NewRig(t, real, sim), rec: &bcastRec{}, ctxs: map[string]*PCtx{},
+	chkCalMu.Lock()
+	chk, ok := chkCal[tg.Name]
+	if !ok {
+		chk = calibrateChk(t, tg)
+		chkCal[tg.Name] = chk
+	}
+	chkCalMu.Unlock()
+	return &bcastRun{chk: chk, t: t, tg: tg, rig: tg.NewRig(t, real, sim), rec: &bcastRec{}, ctxs: map[string]*PCtx{},
 		inv: map[string][]BcastMsg{}}
 }
 
 func (r *bcastRun) nextCall() int { r.mu.Lock(); defer r.mu.Unlock(); r.call++; return r.call }
 
+// The trace specification postpones a dequeue until the context check that
+// follows it; that is only faithful while no queue can fill up.
+func (r *bcastRun) checkRoom(kind string) {
+	if kind != "overflow" && r.call*2 >= r.tg.Cap {
+		r.t.Fatalf("%s run made %d publications, too many for a queue of %d", kind, r.call, r.tg.Cap)
+	}
+}
+
 func (r *bcastRun) register(h string) {
 	p := newPCtx(h, false)
+	if r.chk {
+		p.onErr = func(live bool) {
+			r.rec.log(map[string]interface{}{"event": "Chk", "h": h, "live": live})
+		}
+	}
 	r.mu.Lock()
 	r.ctxs[h] = p
 	r.mu.Unlock()
@@ -614,7 +687,7 @@ func (r *bcastRun) cancel(h string) {
 	p := r.ctxs[h]
 	r.mu.Unlock()
 	r.rec.log(map[string]interface{}{"event": "CancelCall", "h": h})
-	p.cancel()
+	p.Cancel()
 	r.rec.log(map[string]interface{}{"event": "CancelRet", "h": h})
 }
 
@@ -697,6 +770,7 @@ func (r *bcastRun) fence(live []string) {
 }
 
 func (r *bcastRun) finish(tr *Tracer, rep *Report, kind string) {
+	r.checkRoom(kind)
 	for _, pr := range r.rig.Problems() {
 		rep.Diverge("seqno-reuse:"+r.tg.Name, pr, map[string]interface{}{"run": kind}, nil, nil)
 	}
@@ -706,10 +780,13 @@ func (r *bcastRun) finish(tr *Tracer, rep *Report, kind string) {
 		ps = append(ps, p)
 	}
 	r.mu.Unlock()
+	r.rec.mu.Lock()
+	r.rec.closed = true
+	r.rec.mu.Unlock()
 	for _, p := range ps {
 		p.cancel()
 	}
-	n := r.rec.flush(tr, map[string]interface{}{"target": r.tg.Name, "kind": kind})
+	n := r.rec.flush(tr, map[string]interface{}{"target": r.tg.Name, "kind": kind, "chk": r.chk})
 	rep.Count("events_"+r.tg.Name, n)
 	r.rig.Close()
 }
@@ -839,9 +916,6 @@ func RecordBcast(t *testing.T, rep *Report, tg BcastTarget, tr *Tracer, runs int
 		}
 		r.fence(live)
 		r.obsHandlers()
-		for _, h := range live {
-			r.obsQueue(h)
-		}
 		r.directDuplicateCheck(rep, "concurrent")
 		key := fmt.Sprintf("%s:h%d:m%d:ticks=%v", tg.Name, nH, nMsg, withTicks)
 		rep.Eval(key, map[string]interface{}{"target": tg.Name, "handlers": nH, "messages": nMsg, "ticks": withTicks})
